@@ -435,6 +435,8 @@ func c05(w *core.World, r *core.Report) {
 	ruleNewestSegmentFromSortedList(w, r)
 	r.Rule("R06.8", "the disk cache re-reads its directory whenever a run id is (re)confirmed: the in-memory data set lists a snapshot from the first byte of its transfer, and only the re-read removes one whose transfer broke off (shared with C06; seed C05-14)", 2)
 	ruleCacheRefreshed(w, r)
+	r.Rule("R05.17", "a log segment that is handed a writer is marked as being written at that point: a reader with verification on is not refused a segment whose offsets are reported valid (converse of R08.8)", 2)
+	ruleWriterImpliesMarker(w, r)
 }
 
 func ruleCheckThenAcquire(w *core.World, r *core.Report) {
